@@ -391,11 +391,20 @@ def curie_join_check(cx: Cx, ob: Ob, fn_name: str, base_pred, base_desc: str) ->
         success_conditions(ob, fn, ctx, ca[0], line)
     if n == 0:
         ob.undecide(f"{fn_name} has no success return")
-    # the failure tail is reached only after the lookup has been asked: a path that gives up (None / echo / raise)
-    # on the strength of a test of the ARGUMENT alone answers "not convertible" for strings the tables may well know
-    from ..rules import guard_atoms
+    failure_needs_lookup(cx, ob, fn, s, me, "curie" if fn_name == "standardize_curie" else "uri" if fn_name == "compress" else "both")
 
+
+def failure_needs_lookup(cx: Cx, ob: Ob, fn, s, me, side: str) -> None:
+    """The failure tail (None / False / echo / raise) is reached only after the lookup has been asked: a path that
+    gives up on the strength of a test of the ARGUMENT alone answers "not convertible" for strings the tables may
+    well know.  Sound shortcuts are enumerated: ``arg is None``; on the URI side "no registered URI prefix is a
+    prefix of the argument" (``arg.startswith(tuple(<full reverse table>))``); on the CURIE side "the delimiter
+    does not occur in the argument" (a CURIE has one: C02-D1)."""
+    from ..rules import _strip_views, guard_atoms
+
+    fn_name = fn.name
     arg = ("param", fn.params[1].name)
+    dl = ("attr", me, "delimiter")
 
     def asks(t) -> bool:
         # a method of the converter applied to (a piece of) the argument, or one of the lookup tables consulted
@@ -408,10 +417,22 @@ def curie_join_check(cx: Cx, ob: Ob, fn_name: str, base_pred, base_desc: str) ->
                 return True
         return False
 
+    def no_delimiter(a0, pol0) -> bool:
+        if a0 == ("cmp", "in", dl, arg):
+            return pol0 is False
+        if op(a0) == "item" and is_const(a0[2], 1) and op(a0[1]) == "call" and op(a0[1][1]) == "attr" and a0[1][1][1] == arg and a0[1][1][2] in ("partition", "rpartition") and a0[1][2] == (dl,):
+            return pol0 is False
+        find = ("call", ("attr", arg, "find"), (dl,), ())
+        if op(a0) == "cmp" and a0[2] == find and is_const(a0[3]) and isinstance(a0[3][1], int):
+            k = a0[3][1]
+            # the test holds exactly for "not found" (-1): find < 0, find == -1, not (find >= 0), not (find > -1), not (find != -1)
+            return (a0[1], k, pol0) in (("<", 0, True), ("==", -1, True), (">=", 0, False), (">", -1, False), ("<=", -1, True))
+        return False
+
     seen_lines = set()
     for p in s.paths:
         o = p.out
-        if o is not None and o[0] == "return" and not (is_const(o[1], None) or o[1] == arg):
+        if o is not None and o[0] == "return" and not (is_const(o[1], None) or is_const(o[1], False) or o[1] == arg or o[1] == ("tuple", (NONE, NONE))):
             continue
         if any(asks(t) for ev in p.events for t in (ev.a, ev.b)) or (o is not None and len(o) > 1 and asks(o[1]) and o[0] == "return"):
             continue
@@ -422,19 +443,14 @@ def curie_join_check(cx: Cx, ob: Ob, fn_name: str, base_pred, base_desc: str) ->
         if not pre:
             continue
         a0, pol0 = pre[-1]
-        if pol0 is False and op(a0) == "call" and op(a0[1]) == "attr" and a0[1][1] == arg and a0[1][2] == "startswith" and len(a0[2]) == 1:
-            from ..rules import _strip_views
-
+        if side in ("uri",) and pol0 is False and op(a0) == "call" and op(a0[1]) == "attr" and a0[1][1] == arg and a0[1][2] == "startswith" and len(a0[2]) == 1:
             tab = _strip_views(a0[2][0])
             while op(tab) == "call" and callee_name(tab) == "keys" and op(tab[1]) == "attr":
                 tab = tab[1][1]
-            if tab in (("attr", me, "reverse_prefix_map"), ("attr", me, "trie")) and fn_name == "compress":
+            if tab in (("attr", me, "reverse_prefix_map"), ("attr", me, "trie")):
                 ob.site(f"{fn.where} {fn.qualname}", "pre-check: no registered URI prefix is a prefix of the argument")
                 continue
-        # a CURIE has a delimiter (C02-D1: _split raises without one): no delimiter, nothing to standardise
-        dl = ("attr", me, "delimiter")
-        no_delim = (pol0 is False and (a0 == ("cmp", "in", dl, arg) or (op(a0) == "item" and is_const(a0[2], 1) and op(a0[1]) == "call" and op(a0[1][1]) == "attr" and a0[1][1][1] == arg and a0[1][1][2] in ("partition", "rpartition") and a0[1][2] == (dl,))))
-        if no_delim and fn_name == "standardize_curie":
+        if side == "curie" and no_delimiter(a0, pol0):
             ob.site(f"{fn.where} {fn.qualname}", "pre-check: no delimiter in the argument")
             continue
         line = o[2] if o is not None and len(o) > 2 else fn.node.lineno
@@ -444,8 +460,8 @@ def curie_join_check(cx: Cx, ob: Ob, fn_name: str, base_pred, base_desc: str) ->
         ob.violate(
             fn.qualname,
             where(fn, line),
-            f"{fn_name} gives up when `{'' if pol0 else 'not '}{show(a0)[:60]}` without asking the lookup tables: what is convertible is decided by the registered prefixes alone (the empty string, strings without ':' or '://' can all be registered)",
-            witness="Converter with the URI prefix '' (or 'vocab/terms#'): the table knows the string, the shortcut answers None",
+            f"{fn_name} gives up when `{'' if pol0 else 'not '}{show(a0)[:60]}` without asking the lookup tables: what is convertible is decided by the registered prefixes alone (the empty string, strings without ':' or '://', a delimiter at position 0 can all be registered)",
+            witness="Converter with the URI prefix '' (or 'vocab/terms#', or the empty CURIE prefix ':x'): the table knows the string, the shortcut answers None",
             detail="failure-without-lookup",
         )
 
@@ -553,6 +569,7 @@ def is_uri_check(cx: Cx, ob: Ob) -> None:
     s = cx.summary(fn, ob.id)
     me = ("param", fn.self_name)
     arg = ("param", fn.params[1].name)
+    failure_needs_lookup(cx, ob, fn, s, me, "uri")
     for t, ctx in s.returns():
         ob.site(fn, f"return {show(t)[:60]}")
         x = None
